@@ -40,6 +40,23 @@ func controls(c *core.Ctx, prop string) {
 		}
 	}
 	switch prop {
+	case "C12":
+		rs, _ := a.MapRanges()
+		fired := false
+		for _, r := range rs {
+			if p.FuncName(r.Fn) == "(*gen.Generator).Names" && r.Class == "" {
+				fired = true
+			}
+		}
+		need("B-DET1", fired, "unsorted keys escaping a map range")
+		uses, _ := a.NondetUses()
+		got := map[string]bool{}
+		for _, u := range uses {
+			got[u.Callee] = true
+		}
+		need("B-DET2", got["time.Now"] && got["math/rand.Int63"], "clock and randomness")
+		t := a.FileNameTaint()
+		need("B-DET3", len(t.Sinks) > 0, "file path identifierized without Base")
 	case "C18":
 		drops := map[string]bool{}
 		for _, s := range a.ErrSites() {
